@@ -68,7 +68,8 @@ def weak_stubs(objs, out_c, defined_elsewhere=()):
 class Driver:
     """Persistent driver process speaking a line protocol on stdin/stdout."""
 
-    def __init__(self, exe, args=()):
+    def __init__(self, exe, args=(), max_line=4000):
+        self.max_line = max_line        # the driver's input line buffer (minus slack): longer requests are a harness limit
         self.exe = exe
         self.args = list(args)
         self.p = None
@@ -84,6 +85,8 @@ class Driver:
     def request(self, line):
         """send one line, read lines until 'END'; returns list of lines, or
         raises DriverCrash with the sanitizer report"""
+        if len(line) > self.max_line:
+            raise HarnessError("request of %d characters exceeds the driver's line buffer (%d)" % (len(line), self.max_line))
         try:
             self.p.stdin.write(line + "\n")
             self.p.stdin.flush()
